@@ -202,6 +202,18 @@ ConnRestart ==
          /\ down' = down \ {v}
     /\ UNCHANGED <<hub, g, xw, mx>> /\ bad' = {}
 
+\* a connector is set up anew: no status file, the configuration names a start block and the nonces that go with it
+ConnReinit ==
+    /\ \E v \in Vals, b \in {0, mx.h \div 2, mx.h} :
+         /\ SignerVal(hub, MC, Orch(v)) = v
+         /\ LET start == CursorAt(mx, b)
+                ack   == LastNonceOf(hub, MC, v)
+                to    == ResyncTo(mx, start, ack)
+            IN cn' = [cn EXCEPT ![v] = Advance(start, RefBetween(mx, b, to), to)]
+         /\ Rec([k |-> "ConnReinit", i |-> 0, by |-> v, at |-> b])
+         /\ down' = down \ {v}
+    /\ UNCHANGED <<hub, g, xw, mx>> /\ bad' = {}
+
 \* a pass of relayMinterEvents that is killed while it hands its claims to the hub ("after": the hub has committed them,
 \* "before": they never arrived).  The status file keeps what the pass had persisted: the leading blocks without events.
 \* The process is down until it is started again (ConnRestart).
@@ -223,12 +235,12 @@ SendBatchM == (\E d \in Denoms : hub.bal["a3"][d] >= 104) /\ SendBatch
 SendM == (\E d \in Denoms : hub.bal["a3"][d] >= 104) /\ Send
 
 MinterKinds == {"Begin", "NextBlock", "NextBlock2", "SendBatch", "Send", "StakeChange", "MntDeposit", "MntDeposit2", "MntMine", "ConnScan", "ScanAll", "ScanAll2",
-                "ConnBatches", "BatchesAll", "ConnValsets", "ValsetsAll", "ConnRestart", "ConnCrashScan"}
+                "ConnBatches", "BatchesAll", "ConnValsets", "ValsetsAll", "ConnRestart", "ConnCrashScan", "ConnReinit"}
 MinterAction(kind) ==
     CASE kind \in {"MntDeposit", "MntDeposit2"} -> MntDeposit [] kind = "MntMine" -> MntMine [] kind = "ConnScan" -> ConnScan
       [] kind \in {"ScanAll", "ScanAll2"} -> ScanAll
       [] kind = "ConnBatches" -> ConnBatches [] kind = "ConnValsets" -> ConnValsets [] kind = "ConnRestart" -> ConnRestart
-      [] kind = "BatchesAll" -> BatchesAll [] kind = "ValsetsAll" -> ValsetsAll [] kind = "ConnCrashScan" -> ConnCrashScan
+      [] kind = "BatchesAll" -> BatchesAll [] kind = "ValsetsAll" -> ValsetsAll [] kind = "ConnCrashScan" -> ConnCrashScan [] kind = "ConnReinit" -> ConnReinit
       [] kind = "SendBatch" -> HubOnly(SendBatchM) [] kind = "Send" -> HubOnly(SendM) [] kind = "NextBlock2" -> HubOnly(NextBlock)
       [] OTHER -> HubOnly(ActionOf(kind))
 
